@@ -311,3 +311,414 @@ Qed.
 
 Lemma gparse_fuel t r : gparse t r <> Err E_FUEL.
 Proof. apply gp_nofuel. lia. Qed.
+
+(* ---------- locality: the parser never looks beyond what it consumes ---------- *)
+Definition local (e : bytes -> pres) : Prop :=
+  forall p s s' n h, e (p ++ s) = Ok (n, h) -> n <= len p -> e (p ++ s') = Ok (n, h).
+
+Lemma gpair_local e1 e2 : bounded e2 -> local e1 -> local e2 -> local (gpair e1 e2).
+Proof.
+  intros B2 L1 L2 p s s' n h H Hn. unfold gpair in *.
+  inv_bind H. destruct a as [n1 h1]. inv_bind H. destruct a as [n2 h2]. inv_ok H.
+  assert (H2 := B2 _ _ _ Ha0).
+  rewrite (L1 p s s' n1 h1 Ha) by lia. cbn [bind].
+  rewrite drop_app_le in * by lia.
+  rewrite (L2 (drop n1 p) s s' n2 h2 Ha0) by (rewrite drop_len by lia; lia).
+  reflexivity.
+Qed.
+
+Lemma gelems_local elem : local elem -> forall f cnt, local (gelems f elem cnt).
+Proof.
+  intros Le. induction f as [|f IH]; intros cnt p s s' n h H Hn; cbn [gelems] in *.
+  - destruct (cnt =? 0); [exact H|discriminate].
+  - destruct (cnt =? 0); [exact H|].
+    inv_bind H. destruct a as [n1 h1]. inv_bind H. destruct a as [n2 h2]. inv_ok H.
+    rewrite (Le p s s' n1 h1 Ha) by lia. cbn [bind].
+    rewrite drop_app_le in * by lia.
+    rewrite (IH (N.pred cnt) (drop n1 p) s s' n2 h2 Ha0) by (rewrite drop_len by lia; lia).
+    reflexivity.
+Qed.
+
+Lemma gfields_local elem : (forall ft, local (elem ft)) -> forall f, local (gfields f elem).
+Proof.
+  intros Le. induction f as [|f IH]; intros p s s' n h H Hn; cbn [gfields] in *; [discriminate|].
+  destruct p as [|ft p1].
+  - (* n >= 1 but len p = 0 *)
+    exfalso. cbn [app] in H. destruct s as [|ft r1]; [discriminate|].
+    destruct (ft =? T_STOP); [inv_ok H; rewrite len_nil in Hn; lia|].
+    destruct (hasn r1 2); [|discriminate].
+    inv_bind H. destruct a as [n1 h1]. inv_bind H. destruct a as [n2 h2]. inv_ok H.
+    rewrite len_nil in Hn. lia.
+  - cbn [app] in *. rewrite len_cons in Hn.
+    destruct (ft =? T_STOP); [exact H|].
+    destruct (hasn (p1 ++ s) 2) eqn:H2; [|discriminate].
+    inv_bind H. destruct a as [n1 h1]. inv_bind H. destruct a as [n2 h2]. inv_ok H.
+    assert (H2' : hasn (p1 ++ s') 2 = true) by (apply hasn_true; rewrite len_app; lia).
+    rewrite H2'.
+    rewrite (drop_app_le 2) in * by lia.
+    assert (Hd : len (drop 2 p1) = len p1 - 2) by (apply drop_len; lia).
+    rewrite (Le ft (drop 2 p1) s s' n1 h1 Ha) by lia. cbn [bind].
+    rewrite (drop_app_le n1) in * by lia.
+    rewrite (IH (drop n1 (drop 2 p1)) s s' n2 h2 Ha0) by (rewrite drop_len by lia; lia).
+    reflexivity.
+Qed.
+
+Lemma gstring_local : local gstring.
+Proof.
+  intros p s s' n h H Hn. unfold gstring in *.
+  destruct (hasn (p ++ s) 4) eqn:H4; [|discriminate].
+  destruct (two31 <=? unbe (take 4 (p ++ s))) eqn:Hneg; [discriminate|].
+  destruct (hasn (drop 4 (p ++ s)) (unbe (take 4 (p ++ s)))) eqn:Hh; [|discriminate].
+  inv_ok H.
+  assert (H4p : 4 <= len p) by lia.
+  rewrite (take_app_le 4) in * by lia.
+  rewrite (proj2 (hasn_true (p ++ s') 4)) by (rewrite len_app; lia).
+  rewrite (take_app_le 4) by lia. rewrite Hneg.
+  rewrite (proj2 (hasn_true (drop 4 (p ++ s')) (unbe (take 4 p)))).
+  - reflexivity.
+  - rewrite drop_len by (rewrite len_app; lia). rewrite len_app. lia.
+Qed.
+
+Lemma gp_local : forall f t, local (gp f t).
+Proof.
+  induction f as [|f IH]; intros t p s s' n h H Hn; cbn [gp] in *; [discriminate|].
+  destruct (kind_of t) as [w| | | | |].
+  - destruct (hasn (p ++ s) w) eqn:Hw; [|discriminate]. inv_ok H.
+    rewrite (proj2 (hasn_true (p ++ s') n)) by (rewrite len_app; lia). reflexivity.
+  - exact (gstring_local p s s' n h H Hn).
+  - inv_bind H. destruct a as [n1 h1]. inv_ok H.
+    rewrite (gfields_local (gp f) IH (S f) p s s' n h1 Ha Hn). reflexivity.
+  - destruct p as [|kt [|vt p2]].
+    + exfalso. cbn [app] in H. destruct s as [|kt [|vt r2]]; try discriminate.
+      destruct (hasn r2 4); [|discriminate]. destruct (two31 <=? unbe (take 4 r2)); [discriminate|].
+      inv_bind H. destruct a as [n1 h1]. inv_ok H. rewrite len_nil in Hn. lia.
+    + exfalso. cbn [app] in H. destruct s as [|vt r2]; try discriminate.
+      destruct (hasn r2 4); [|discriminate]. destruct (two31 <=? unbe (take 4 r2)); [discriminate|].
+      inv_bind H. destruct a as [n1 h1]. inv_ok H. rewrite len_cons, len_nil in Hn. lia.
+    + cbn [app] in *. rewrite !len_cons in Hn.
+      destruct (hasn (p2 ++ s) 4) eqn:H4; [|discriminate].
+      destruct (two31 <=? unbe (take 4 (p2 ++ s))) eqn:Hneg; [discriminate|].
+      inv_bind H. destruct a as [n1 h1]. inv_ok H.
+      rewrite (take_app_le 4 p2 s) in * by lia.
+      rewrite (proj2 (hasn_true (p2 ++ s') 4)) by (rewrite len_app; lia).
+      rewrite (take_app_le 4 p2 s') by lia. rewrite Hneg.
+      rewrite (drop_app_le 4 p2 s) in Ha by lia. rewrite (drop_app_le 4 p2 s') by lia.
+      rewrite (gelems_local _ (gpair_local _ _ (gp_bounds f vt) (IH kt) (IH vt)) (S f) _
+                 (drop 4 p2) s s' n1 h1 Ha) by (rewrite drop_len by lia; lia).
+      reflexivity.
+  - destruct p as [|et p1].
+    + exfalso. cbn [app] in H. destruct s as [|et r1]; try discriminate.
+      destruct (hasn r1 4); [|discriminate]. destruct (two31 <=? unbe (take 4 r1)); [discriminate|].
+      inv_bind H. destruct a as [n1 h1]. inv_ok H. rewrite len_nil in Hn. lia.
+    + cbn [app] in *. rewrite !len_cons in Hn.
+      destruct (hasn (p1 ++ s) 4) eqn:H4; [|discriminate].
+      destruct (two31 <=? unbe (take 4 (p1 ++ s))) eqn:Hneg; [discriminate|].
+      inv_bind H. destruct a as [n1 h1]. inv_ok H.
+      rewrite (take_app_le 4 p1 s) in * by lia.
+      rewrite (proj2 (hasn_true (p1 ++ s') 4)) by (rewrite len_app; lia).
+      rewrite (take_app_le 4 p1 s') by lia. rewrite Hneg.
+      rewrite (drop_app_le 4 p1 s) in Ha by lia. rewrite (drop_app_le 4 p1 s') by lia.
+      rewrite (gelems_local _ (IH et) (S f) _ (drop 4 p1) s s' n1 h1 Ha) by (rewrite drop_len by lia; lia).
+      reflexivity.
+  - discriminate.
+Qed.
+
+Lemma gparse_local t p s s' n h :
+  gparse t (p ++ s) = Ok (n, h) -> n <= len p -> gparse t (p ++ s') = Ok (n, h).
+Proof.
+  intros H Hn.
+  rewrite <- (gp_gparse (S (length (p ++ s) + length (p ++ s')))) in H by lia.
+  rewrite <- (gp_gparse (S (length (p ++ s) + length (p ++ s')))) by lia.
+  exact (gp_local _ t p s s' n h H Hn).
+Qed.
+
+(* the result depends only on the first n bytes *)
+Lemma gparse_take t r r' n h :
+  gparse t r = Ok (n, h) -> take n r' = take n r -> gparse t r' = Ok (n, h).
+Proof.
+  intros H E. pose proof (gparse_bounds _ _ _ _ H) as B.
+  rewrite <- (take_drop n r) in H. rewrite <- (take_drop n r'), E.
+  apply (gparse_local t (take n r) (drop n r) (drop n r') n h H).
+  rewrite take_len; lia.
+Qed.
+
+(* ---------- induction principle for value trees ---------- *)
+Section ValueInd.
+  Variable P : value -> Prop.
+  Hypothesis Hbool : forall b, P (VBool b).
+  Hypothesis Hbyte : forall b, P (VByte b).
+  Hypothesis Hdouble : forall x, P (VDouble x).
+  Hypothesis Hi16 : forall x, P (VI16 x).
+  Hypothesis Hi32 : forall x, P (VI32 x).
+  Hypothesis Hi64 : forall x, P (VI64 x).
+  Hypothesis Hstr : forall s, P (VStr s).
+  Hypothesis Hstruct : forall fs, Forall (fun f => P (snd f)) fs -> P (VStruct fs).
+  Hypothesis Hmap : forall kt vt kvs, Forall (fun kv => P (fst kv) /\ P (snd kv)) kvs -> P (VMap kt vt kvs).
+  Hypothesis Hset : forall et vs, Forall P vs -> P (VSet et vs).
+  Hypothesis Hlist : forall et vs, Forall P vs -> P (VList et vs).
+
+  Fixpoint value_ind' (v : value) : P v :=
+    match v with
+    | VBool b => Hbool b | VByte b => Hbyte b | VDouble x => Hdouble x
+    | VI16 x => Hi16 x | VI32 x => Hi32 x | VI64 x => Hi64 x
+    | VStr s => Hstr s
+    | VStruct fs =>
+      Hstruct fs ((fix go (l : list (N * N * value)) : Forall (fun f => P (snd f)) l :=
+                     match l with
+                     | [] => Forall_nil _
+                     | f :: l' => Forall_cons f (match f return P (snd f) with (_, fv) => value_ind' fv end) (go l')
+                     end) fs)
+    | VMap kt vt kvs =>
+      Hmap kt vt kvs ((fix go (l : list (value * value)) : Forall (fun kv => P (fst kv) /\ P (snd kv)) l :=
+                     match l with
+                     | [] => Forall_nil _
+                     | kv :: l' => Forall_cons kv
+                         (match kv return P (fst kv) /\ P (snd kv) with (k, v) => conj (value_ind' k) (value_ind' v) end) (go l')
+                     end) kvs)
+    | VSet et vs =>
+      Hset et vs ((fix go (l : list value) : Forall P l :=
+                     match l with [] => Forall_nil _ | x :: l' => Forall_cons x (value_ind' x) (go l') end) vs)
+    | VList et vs =>
+      Hlist et vs ((fix go (l : list value) : Forall P l :=
+                     match l with [] => Forall_nil _ | x :: l' => Forall_cons x (value_ind' x) (go l') end) vs)
+    end.
+End ValueInd.
+
+(* ---------- encodings parse back: gparse_enc ---------- *)
+Lemma enc_nonempty v : 1 <= len (enc v).
+Proof.
+  destruct v; cbn [enc]; repeat rewrite ?len_cons, ?len_app, ?be_len, ?len_nil; lia.
+Qed.
+
+Lemma be_hasn k x Y : hasn (be k x ++ Y) (N.of_nat k) = true.
+Proof. apply hasn_true. rewrite len_app, be_len. lia. Qed.
+Lemma be_take k x Y : take (N.of_nat k) (be k x ++ Y) = be k x.
+Proof. rewrite <- (be_len k x). apply take_app_len. Qed.
+Lemma be_drop k x Y : drop (N.of_nat k) (be k x ++ Y) = Y.
+Proof. rewrite <- (be_len k x). apply drop_app_len. Qed.
+
+Lemma be4_hasn x Y : hasn (be 4 x ++ Y) 4 = true.  Proof. exact (be_hasn 4 x Y). Qed.
+Lemma be4_take x Y : take 4 (be 4 x ++ Y) = be 4 x.  Proof. exact (be_take 4 x Y). Qed.
+Lemma be4_drop x Y : drop 4 (be 4 x ++ Y) = Y.  Proof. exact (be_drop 4 x Y). Qed.
+Lemma be2_hasn x Y : hasn (be 2 x ++ Y) 2 = true.  Proof. exact (be_hasn 2 x Y). Qed.
+Lemma be2_drop x Y : drop 2 (be 2 x ++ Y) = Y.  Proof. exact (be_drop 2 x Y). Qed.
+
+Lemma unbe_be4 c : c < two32 -> unbe (be 4 c) = c.
+Proof. intros H. rewrite unbe_be. apply N.mod_small. exact H. Qed.
+
+Lemma lmax_cons x l : lmax (x :: l) = Nat.max x (lmax l).
+Proof. reflexivity. Qed.
+
+Lemma len_ge1_length {A} (l : list A) : 1 <= len l -> (1 <= length l)%nat.
+Proof. unfold len. lia. Qed.
+
+Lemma gelems_enc {A} (ea : A -> bytes) (ha : A -> nat) elem (L : nat) :
+  forall (xs : list A) f rest,
+  Forall (fun x => 1 <= len (ea x) /\
+            forall rest', (length (ea x ++ rest') <= L)%nat ->
+                          elem (ea x ++ rest') = Ok (len (ea x), ha x)) xs ->
+  (length (concat (map ea xs) ++ rest) <= L)%nat ->
+  (length (concat (map ea xs) ++ rest) <= f)%nat ->
+  gelems f elem (len xs) (concat (map ea xs) ++ rest) =
+  Ok (len (concat (map ea xs)), lmax (map ha xs)).
+Proof.
+  induction xs as [|x xs IH]; intros f rest HF HL Hf.
+  - destruct f; reflexivity.
+  - inversion HF as [|? ? [Hx1 Hx] HF']; subst.
+    cbn [map concat] in *. rewrite <- app_assoc in *.
+    apply len_ge1_length in Hx1.
+    destruct f as [|f]; [rewrite app_length in Hf; lia|].
+    cbn [gelems]. rewrite len_cons.
+    destruct (N.eqb_spec (1 + len xs) 0) as [E|_]; [lia|].
+    rewrite (Hx _ HL). cbn [bind]. rewrite drop_app_len.
+    replace (N.pred (1 + len xs)) with (len xs) by lia.
+    rewrite app_length in HL, Hf.
+    rewrite (IH f rest HF') by lia. cbn [bind].
+    rewrite len_app, lmax_cons. reflexivity.
+Qed.
+
+Definition encf (f : N * N * value) : bytes := match f with (ft, id, fv) => ft :: be 2 id ++ enc fv end.
+Definition chf (f : N * N * value) : nat := match f with (_, _, fv) => ch fv end.
+
+Lemma gfields_enc elem (L : nat) :
+  forall fs f rest,
+  Forall (fun fl => fst (fst fl) <> T_STOP /\
+            forall rest', (length (enc (snd fl) ++ rest') <= L)%nat ->
+                          elem (fst (fst fl)) (enc (snd fl) ++ rest') = Ok (len (enc (snd fl)), ch (snd fl))) fs ->
+  (length (concat (map encf fs) ++ T_STOP :: rest) <= L + 3)%nat ->
+  (length (concat (map encf fs) ++ T_STOP :: rest) < f)%nat ->
+  gfields f elem (concat (map encf fs) ++ T_STOP :: rest) =
+  Ok (len (concat (map encf fs)) + 1, lmax (map chf fs)).
+Proof.
+  induction fs as [|[[ft id] fv] fs IH]; intros f rest HF HL Hf.
+  - destruct f as [|f]; [lia|]. cbn [map concat app gfields].
+    rewrite N.eqb_refl. reflexivity.
+  - inversion HF as [|? ? [Hft Hx] HF']; subst. cbn [fst snd] in *.
+    destruct f as [|f]; [lia|].
+    cbn [map concat encf] in *. rewrite <- app_assoc in *. rewrite <- !app_comm_cons in *.
+    rewrite <- app_assoc in *.
+    cbn [gfields].
+    destruct (N.eqb_spec ft T_STOP) as [E|_]; [contradiction|].
+    rewrite be2_hasn, be2_drop.
+    cbn [length] in HL, Hf. rewrite !app_length in HL, Hf. rewrite be_length in HL, Hf. cbn [length] in HL, Hf.
+    rewrite (Hx _) by (rewrite !app_length; cbn [length]; lia). cbn [bind]. rewrite drop_app_len.
+    rewrite (IH f rest HF') by (rewrite !app_length; cbn [length]; lia). cbn [bind].
+    rewrite len_cons, !len_app, be_len, lmax_cons. cbn [chf].
+    replace (1 + (N.of_nat 2 + len (enc fv) + len (concat (map encf fs))) + 1)
+      with (3 + len (enc fv) + (len (concat (map encf fs)) + 1)) by lia. reflexivity.
+Qed.
+
+Lemma wt_not_stop t v : wt t v = true -> t <> T_STOP.
+Proof. intros H ->. destruct v; cbn in H; discriminate. Qed.
+
+Definition encp (kv : value * value) : bytes := match kv with (k, v) => enc k ++ enc v end.
+Definition chp (kv : value * value) : nat := match kv with (k, v) => Nat.max (ch k) (ch v) end.
+
+Ltac wt_split H :=
+  repeat match type of H with
+         | (_ && _) = true => let H' := fresh "Hw" in apply andb_true_iff in H; destruct H as [H H']
+         end.
+
+Lemma two31_lt_two32 : two31 < two32.
+Proof. reflexivity. Qed.
+
+Definition enc_ok (v : value) : Prop :=
+  forall t, wt t v = true -> forall f rest,
+    (length (enc v ++ rest) < f)%nat -> gp f t (enc v ++ rest) = Ok (len (enc v), ch v).
+
+Lemma enc_ok_fixed v t w :
+  kind_of t = KFixed w -> len (enc v) = w -> ch v = O ->
+  forall f rest, (length (enc v ++ rest) < f)%nat -> gp f t (enc v ++ rest) = Ok (len (enc v), ch v).
+Proof.
+  intros Hk Hl Hc f rest Hf. destruct f as [|f]; [lia|]. cbn [gp]. rewrite Hk.
+  rewrite (proj2 (hasn_true _ _)) by (rewrite len_app; lia). now rewrite Hl, Hc.
+Qed.
+
+Lemma enc_ok_elems f et vs rest :
+  Forall enc_ok vs -> forallb (wt et) vs = true ->
+  (length (concat (map enc vs) ++ rest) < f)%nat ->
+  gelems (S f) (gp f et) (len vs) (concat (map enc vs) ++ rest) =
+  Ok (len (concat (map enc vs)), lmax (map ch vs)).
+Proof.
+  intros IH Hw Hf.
+  apply (gelems_enc enc ch (gp f et) (f - 1)); [|lia|lia].
+  rewrite Forall_forall in *. rewrite forallb_forall in Hw.
+  intros v Hv. split; [apply enc_nonempty|].
+  intros rest' Hr. apply (IH v Hv et (Hw v Hv)).
+  pose proof (len_ge1_length _ (enc_nonempty v)). rewrite app_length in *. lia.
+Qed.
+
+Lemma gp_enc : forall v, enc_ok v.
+Proof.
+  induction v using value_ind'; intros t Hwt; cbn [wt] in Hwt; wt_split Hwt;
+    apply N.eqb_eq in Hwt; subst t.
+  - apply (enc_ok_fixed (VBool b) T_BOOL 1); try reflexivity.
+  - apply (enc_ok_fixed (VByte b) T_BYTE 1); try reflexivity.
+  - apply (enc_ok_fixed (VDouble x) T_DOUBLE 8); try reflexivity.
+  - apply (enc_ok_fixed (VI16 x) T_I16 2); try reflexivity.
+  - apply (enc_ok_fixed (VI32 x) T_I32 4); try reflexivity.
+  - apply (enc_ok_fixed (VI64 x) T_I64 8); try reflexivity.
+  - (* string *)
+    intros f rest Hf. destruct f as [|f]; [lia|]. cbn [gp enc ch].
+    change (kind_of T_STRING) with KString. unfold gstring.
+    rewrite <- app_assoc. rewrite be4_hasn, be4_take, be4_drop.
+    assert (Hls : len s < two31) by (apply N.ltb_lt; assumption).
+    rewrite unbe_be4 by (pose proof two31_lt_two32; lia).
+    destruct (N.leb_spec two31 (len s)) as [Hc|_]; [lia|].
+    rewrite hasn_app_len. rewrite len_app, be_len. reflexivity.
+  - (* struct *)
+    intros f rest Hf. destruct f as [|f]; [lia|]. cbn [gp].
+    change (kind_of T_STRUCT) with KStruct.
+    change (enc (VStruct fs)) with (concat (map encf fs) ++ [T_STOP]) in *.
+    change (ch (VStruct fs)) with (S (lmax (map chf fs))).
+    rewrite <- app_assoc in *. cbn [app] in *.
+    rewrite (gfields_enc (gp f) (f - 1)); [cbn [bind]; rewrite len_app; reflexivity| |lia|lia].
+    rewrite Forall_forall in *. rewrite forallb_forall in Hw.
+    intros [[ft id] fv] Hin. specialize (H _ Hin). specialize (Hw _ Hin). cbn [fst snd] in *.
+    wt_split Hw. assert (Hwf : wt ft fv = true) by assumption.
+    split; [exact (wt_not_stop _ _ Hwf)|].
+    intros rest' Hr. apply (H ft Hwf).
+    pose proof (len_ge1_length _ (enc_nonempty fv)). rewrite app_length in *. lia.
+  - (* map *)
+    intros f rest Hf. destruct f as [|f]; [lia|]. cbn [gp].
+    change (kind_of T_MAP) with KMap.
+    change (enc (VMap kt vt kvs)) with (kt :: vt :: be 4 (len kvs) ++ concat (map encp kvs)) in *.
+    change (ch (VMap kt vt kvs)) with (S (lmax (map chp kvs))).
+    rewrite <- !app_comm_cons in *. rewrite <- app_assoc in *.
+    rewrite be4_hasn, be4_take, be4_drop.
+    assert (Hls : len kvs < two31) by (apply N.ltb_lt; assumption).
+    rewrite unbe_be4 by (pose proof two31_lt_two32; lia).
+    destruct (N.leb_spec two31 (len kvs)) as [Hc|_]; [lia|].
+    cbn [length] in Hf. rewrite app_length, be_length in Hf.
+    rewrite (gelems_enc encp chp _ (f - 1)); [cbn [bind]| |lia|lia].
+    + rewrite !len_cons, !len_app, be_len. f_equal. f_equal. lia.
+    + rewrite Forall_forall in *. rewrite forallb_forall in Hw.
+      intros [k v] Hin. destruct (H _ Hin) as [Hk Hv]. specialize (Hw _ Hin). cbn [fst snd] in *.
+      wt_split Hw. assert (Hwk : wt kt k = true) by assumption. assert (Hwv : wt vt v = true) by assumption.
+      pose proof (len_ge1_length _ (enc_nonempty k)) as Hk1.
+      pose proof (len_ge1_length _ (enc_nonempty v)) as Hv1.
+      split; [cbn [encp]; rewrite len_app; pose proof (enc_nonempty k); lia|].
+      intros rest' Hr. cbn [encp chp] in *. unfold gpair. rewrite <- app_assoc in *.
+      rewrite !app_length in Hr.
+      rewrite (Hk kt Hwk) by (rewrite !app_length; lia). cbn [bind]. rewrite drop_app_len.
+      rewrite (Hv vt Hwv) by (rewrite !app_length; lia). cbn [bind].
+      rewrite len_app. reflexivity.
+  - (* set *)
+    intros f rest Hf. destruct f as [|f]; [lia|]. cbn [gp enc ch]. cbn [enc] in Hf.
+    change (kind_of T_SET) with KList.
+    rewrite <- !app_comm_cons in *. rewrite <- app_assoc in *.
+    rewrite be4_hasn, be4_take, be4_drop.
+    assert (Hls : len vs < two31) by (apply N.ltb_lt; assumption).
+    rewrite unbe_be4 by (pose proof two31_lt_two32; lia).
+    destruct (N.leb_spec two31 (len vs)) as [Hc|_]; [lia|].
+    cbn [length] in Hf. rewrite app_length, be_length in Hf.
+    rewrite enc_ok_elems by (assumption || lia). cbn [bind].
+    rewrite !len_cons, !len_app, be_len. f_equal. f_equal. lia.
+  - (* list *)
+    intros f rest Hf. destruct f as [|f]; [lia|]. cbn [gp enc ch]. cbn [enc] in Hf.
+    change (kind_of T_LIST) with KList.
+    rewrite <- !app_comm_cons in *. rewrite <- app_assoc in *.
+    rewrite be4_hasn, be4_take, be4_drop.
+    assert (Hls : len vs < two31) by (apply N.ltb_lt; assumption).
+    rewrite unbe_be4 by (pose proof two31_lt_two32; lia).
+    destruct (N.leb_spec two31 (len vs)) as [Hc|_]; [lia|].
+    cbn [length] in Hf. rewrite app_length, be_length in Hf.
+    rewrite enc_ok_elems by (assumption || lia). cbn [bind].
+    rewrite !len_cons, !len_app, be_len. f_equal. f_equal. lia.
+Qed.
+
+Theorem gparse_enc t v rest :
+  wt t v = true -> gparse t (enc v ++ rest) = Ok (len (enc v), ch v).
+Proof. intros H. apply (gp_enc v t H). lia. Qed.
+
+(* ---------- prefix-freeness and uniqueness of the extent ---------- *)
+(* no strict prefix of enc v is a complete value of v's type *)
+Theorem enc_prefix_free t v p s :
+  wt t v = true -> enc v = p ++ s -> s <> [] -> forall n h, gparse t p <> Ok (n, h).
+Proof.
+  intros Hw He Hs n h Hp.
+  pose proof (gparse_bounds _ _ _ _ Hp) as B.
+  rewrite <- (app_nil_r p) in Hp.
+  pose proof (gparse_local t p [] s n h Hp (proj2 B)) as H1.
+  rewrite <- He in H1. rewrite <- (app_nil_r (enc v)) in H1.
+  rewrite (gparse_enc t v [] Hw) in H1. apply ok_pair_inj in H1. destruct H1 as [H1 _].
+  rewrite He, len_app in H1.
+  assert (1 <= len s) by (destruct s; [contradiction|rewrite len_cons; lia]). lia.
+Qed.
+
+(* two well-typed values of the same type at the front of the same bytes have the same encoding *)
+Theorem enc_unique_extent t v1 v2 r1 r2 :
+  wt t v1 = true -> wt t v2 = true -> enc v1 ++ r1 = enc v2 ++ r2 -> enc v1 = enc v2 /\ r1 = r2.
+Proof.
+  intros H1 H2 E.
+  pose proof (gparse_enc t v1 r1 H1) as G1. pose proof (gparse_enc t v2 r2 H2) as G2.
+  rewrite E in G1. rewrite G2 in G1. apply ok_pair_inj in G1. destruct G1 as [L _].
+  split.
+  - rewrite <- (take_app_len (enc v1) r1), <- (take_app_len (enc v2) r2). now rewrite E, L.
+  - rewrite <- (drop_app_len (enc v1) r1), <- (drop_app_len (enc v2) r2). now rewrite E, L.
+Qed.
+
+(* the height the grammar reports is the tree's height, whatever follows *)
+Corollary gparse_enc_height t v rest n h :
+  wt t v = true -> gparse t (enc v ++ rest) = Ok (n, h) -> n = len (enc v) /\ h = ch v.
+Proof. intros Hw H. rewrite (gparse_enc t v rest Hw) in H. apply ok_pair_inj in H. intuition. Qed.
